@@ -274,7 +274,7 @@ enum cc_stat cc_deque_add_at(CC_Deque *deque, void *element, size_t index)
             if (l != c) {
                 memmove(&(deque->buffer[1]),
                         &(deque->buffer[0]),
-                        (l + 1) * sizeof(void*));
+                        l * sizeof(void*));
             }
             deque->buffer[0] = e_last;
         } else {
